@@ -139,13 +139,13 @@ func (c13Engine) Gen(t *rapid.T, tier string) any {
 }
 
 type c13Env struct {
-	routers []*mocrelay.RouterHandler
-	regs    []*prometheus.Registry
-	dbs     []*sql.DB
-	hctx    context.Context
-	hcancel context.CancelFunc
-	err     error
-	broken  bool
+	routers    []*mocrelay.RouterHandler
+	regs       []*prometheus.Registry
+	dbs        []*sql.DB
+	hctx       context.Context
+	hcancel    context.CancelFunc
+	err        error
+	broken     bool
 	routerBase []int // registry entries (all maps reachable from each router) before the session
 }
 
@@ -413,7 +413,15 @@ func c13Run(t *testing.T, c *C13Case, cut int, mode c13Mode) *simrt.Result {
 		// demanded there; cancellation must still be prompt.
 		prompt := time.Second
 		if env.broken && mode.end == "closerecv" {
-			prompt = 8 * time.Second
+			// every EVENT already accepted as input may have to wait for one full
+			// retry cycle (1s+2s+4s of back-off) of the batch in front of it
+			nEv := 0
+			for i := 0; i < cut; i++ {
+				if c.History[i].T == "EVENT" {
+					nEv++
+				}
+			}
+			prompt = time.Duration(nEv+1)*7*time.Second + time.Second
 		}
 		if !cl.Returned.Load() {
 			sim.Advance(prompt)
